@@ -1,8 +1,12 @@
--- REGENERATED on every run by vlib/checks/sched_common.py (harness/cmd/schedfacts) from /repo's sched.go.
+-- REGENERATED on every run by vlib/checks/sched_common.py (harness/cmd/schedfacts + behavioural probe) from /repo's sched.go.
 import OllamaVerif.Model.Sched
 namespace OllamaVerif.Generated.C01
 open OllamaVerif.Sched
-/-- extractor output: deletes=1 guardedDeletes=1; guardDelete=true; recheckGrant=true; deletesElsewhere=0; expiredCaseFound=true; expiredAtomic=true; unloadUnderLoadedMu=true; evictBlockFound=true; evictAtomic=true; enqueueNonBlocking=true; waitUnloadPure=true -/
+/-- extractor output: deletes=1 guardedDeletes=1 bareDeletes=0; guardDeleteAst=guarded; recheckInUse=present callerRetries=present; recheckGrantAst=present; deletesElsewhere=0; expiredCaseFound=true; expiredAtomic=true; unloadUnderLoadedMu=true; evictBlockFound=true; evictAtomic=true; enqueueNonBlocking=true; waitUnloadPure=true; unloadedChRecvArms=2; cap_pendingReqCh=envconfigMaxQueue; cap_finishedReqCh=envconfigMaxQueue; cap_expiredCh=envconfigMaxQueue; cap_unloadedCh=envconfigMaxQueue; inlinedHelpers= -/
+def extractorOutput : Unit := ()
+/-- the variant of the model the tree implements: each flag = (the real scheduler stays inside the property on the
+    F12a resp. F12b witness schedules) AND (go/ast does not find an unguarded delete resp. a missing re-check);
+    probe ran=True guardDelete=True recheckGrant=True; go/ast guardDelete=guarded recheckGrant=present -/
 def treeVariant : Variant := ⟨true, true⟩
 def deletesElsewhere : Nat := 0
 /-- the expired handler tests refCount and unloads in ONE critical section of refMu (no check-then-act window) -/
@@ -16,4 +20,9 @@ def evictAtomic : Bool := true
 def enqueueNonBlocking : Bool := true
 /-- the `<-s.unloadedCh` arms of processPending only log and continue (`pDrainUnloaded` / `pWaitUnload` change nothing else) -/
 def waitUnloadPure : Bool := true
+/-- number of selects of processPending that receive from unloadedCh (the idle select = `pDrainUnloaded`, the
+    wait-for-unload select = `pWaitUnload`) -/
+def unloadedChRecvArms : Nat := 2
+/-- InitScheduler makes all four scheduler channels with capacity envconfig.MaxQueue() (the model's `maxQueue`) -/
+def chanCapsAreMaxQueue : Bool := true
 end OllamaVerif.Generated.C01
